@@ -644,7 +644,7 @@ fn replay_regress(def: &PropertyDef, cfg: &RunCfg, stats: &mut Stats, out: &mut 
 	violations
 }
 
-pub fn run_property(def: PropertyDef, tier: Tier, seed: u64, only: Option<&str>) -> i32 {
+pub fn run_property(def: PropertyDef, tier: Tier, seed: u64, only: Option<&str>, write_evidence: bool) -> i32 {
 	let t0 = Instant::now();
 	let cfg = RunCfg { property: def.id.to_string(), tier, seed, known: load_known(def.id) };
 	let mut total = Stats::default();
@@ -728,7 +728,7 @@ pub fn run_property(def: PropertyDef, tier: Tier, seed: u64, only: Option<&str>)
 		"wall_s": (wall * 1000.0).round() / 1000.0,
 		"violations": violations,
 	});
-	if only.is_none() {
+	if only.is_none() && write_evidence {
 		let dir = Path::new(VERIF_DIR).join("evidence");
 		let _ = std::fs::create_dir_all(&dir);
 		let _ = std::fs::write(
